@@ -285,6 +285,12 @@ func (req *Request) String() (str string) {
 		str += req.WaitCondition[i].String("WaitCondition")
 	}
 	for i := range req.Sort {
+		if req.Sort[i].Args != "" {
+			// sorting by a custom variable: the name of the variable belongs to the header
+			str += fmt.Sprintf("Sort: %s %s %s\n", req.Sort[i].Name, req.Sort[i].Args, req.Sort[i].Direction.String())
+
+			continue
+		}
 		str += fmt.Sprintf("Sort: %s %s\n", req.Sort[i].Name, req.Sort[i].Direction.String())
 	}
 
